@@ -32,8 +32,8 @@
 (*   KF_C41_1  an item accepted by Append but dropped by Commit is still   *)
 (*             counted as written and does not produce a 400 (DESIGN H8)   *)
 (*   KF_C41_2  v1 skips a series with invalid labels silently (204)        *)
-(*   KF_C41_3  v1 appends exemplars before histograms (new series with     *)
-(*             only histograms loses its exemplars)                        *)
+(* (A third one, KF-C41-3: 1.0 appended exemplars before histograms, was   *)
+(* repaired by a04f81df02; the transcription follows the repaired order.)  *)
 (***************************************************************************)
 EXTENDS Integers, Sequences, FiniteSets, TLC, Json
 
@@ -196,12 +196,13 @@ AppendEntry ==
      ELSE LET fl  == [k \in 1..Len(e.fl) |-> [t |-> e.fl[k].t, ty |-> "f", v |-> e.fl[k].v]]
               hs  == [k \in 1..Len(e.hs) |-> [t |-> e.hs[k].t, ty |-> e.hs[k].k, v |-> 1]]
               a0  == [pend |-> pend, created |-> created, s |-> 0, h |-> 0, bad |-> 0, stop |-> FALSE]
-              \* v2: samples, histograms, exemplars.  v1: samples, EXEMPLARS, histograms (write())
-              a1  == IF proto = "v2" THEN AppItems(a0, e.lab, fl \o hs, 1) ELSE AppItems(a0, e.lab, fl, 1)
+              \* both versions: samples, histograms, exemplars (1.0 appended exemplars before histograms until
+              \* commit a04f81df02, formerly KF-C41-3)
+              a1  == AppItems(a0, e.lab, fl \o hs, 1)
               stx == [StA(e.lab) EXCEPT !.exists = (@ \/ e.lab \in a1.created)] @@ [ser |-> e.lab]
               a2  == IF a1.stop THEN [pendEx |-> pendEx, e |-> 0, bad |-> 0]
                      ELSE AppExs([pendEx |-> pendEx, e |-> 0, bad |-> 0], stx, e.ex, 1)
-              a3  == IF proto = "v2" THEN a1 ELSE AppItems(a1, e.lab, hs, 1)
+              a3  == a1
           IN /\ pend' = a3.pend /\ created' = a3.created /\ fatal' = a3.stop
              /\ pendEx' = a2.pendEx
              /\ cnt' = [s |-> cnt.s + a3.s, h |-> cnt.h + a3.h, e |-> cnt.e + a2.e]
@@ -262,19 +263,14 @@ KF_C41_1 == Done /\ ~fatal /\ cnt.s + cnt.h + cnt.e > Ref.cnt.s + Ref.cnt.h + Re
 \* v1: a series with invalid labels is skipped silently instead of failing the request with 400
 KF_C41_2 == proto = "v1" /\ \E k \in 1..Len(req) : ~ValidLab(req[k].lab)
 
-\* v1 appends the exemplars of an entry before its histograms: the exemplars of a new series that has
-\* only native histograms find no series and are dropped
-KF_C41_3 == proto = "v1" /\ \E k \in 1..Len(req) : req[k].lab = "b" /\ req[k].ex # <<>> /\ req[k].hs # <<>>
-
-Conforms == CodeMatchesRef \/ KF_C41_1 \/ KF_C41_2 \/ KF_C41_3
+Conforms == CodeMatchesRef \/ KF_C41_1 \/ KF_C41_2
 
 \* never more is stored than the reference admits, whatever happens to counts and status
 NeverStoresInvalid == Done => \A x \in Sers : stored[x] \subseteq Ref.stored[x] /\ exstored[x] \subseteq Ref.exstored[x]
 
 -----------------------------------------------------------------------------
 Case == [proto |-> proto, req |-> req,
-         kf |-> (IF KF_C41_1 THEN {"KF_C41_1"} ELSE {}) \cup (IF KF_C41_2 THEN {"KF_C41_2"} ELSE {})
-                \cup (IF KF_C41_3 THEN {"KF_C41_3"} ELSE {}),
+         kf |-> (IF KF_C41_1 THEN {"KF_C41_1"} ELSE {}) \cup (IF KF_C41_2 THEN {"KF_C41_2"} ELSE {}),
          ref  |-> [code |-> RefCode, cnt |-> Ref.cnt, stored |-> Ref.stored, exstored |-> Ref.exstored],
          code |-> [code |-> resp.code, cnt |-> [s |-> resp.s, h |-> resp.h, e |-> resp.e], stored |-> stored, exstored |-> exstored]]
 Emit == \/ EmitMode # "done"
